@@ -33,6 +33,12 @@ trait InputTextIndex {
     fn cat_continuous_len(&self, offset: usize) -> (r: usize)
         requires offset < self.sp_nch()
         ensures r == self.sp_cont(offset as int);
+    /// the classes common to every character of a range (InputBuffer::cat_of_range: v_bufro); not used by the provider today - declared
+    /// so that a provider that consults it is still checked against the contract instead of leaving the unit undecided
+    spec fn sp_cat_range(&self, a: int, b: int) -> CategoryType;
+    fn cat_of_range(&self, range: core::ops::Range<usize>) -> (r: CategoryType)
+        requires range.start <= range.end <= self.sp_nch()
+        ensures r == self.sp_cat_range(range.start as int, range.end as int);
     /// InputBuffer::char_distance: `(cpt + offset).min(chars) - cpt`
     fn char_distance(&self, cpt: usize, offset: usize) -> (r: usize)
         requires cpt <= self.sp_nch(), cpt + offset <= usize::MAX
@@ -276,8 +282,8 @@ impl MeCabOovPlugin {
 
 //@extract sudachi/src/plugin/oov/mecab_oov/mod.rs :: impl MeCabOovPlugin :: fn provide_oov_gen
 //@  rw R6v 1 custom
-//@  | for ctype in input\.cat_at_char\(offset\)\.iter\(\) \{
-//@  > let __flags = input.cat_at_char(offset).iter_vec(); let mut __ic: usize = 0; while __ic < __flags.len() { let ctype = __flags[__ic]; __ic += 1;
+//@  | for ctype in (\w+(?:\.\w+\([^()]*\))?)\.iter\(\) \{
+//@  > let __flags = \1.iter_vec(); let mut __ic: usize = 0; while __ic < __flags.len() { let ctype = __flags[__ic]; __ic += 1;
 //@  rw R6v 2 custom
 //@  | for oov in oovs \{
 //@  > let mut __io: usize = 0; while __io < oovs.len() { let oov = &oovs[__io]; __io += 1;
